@@ -1,6 +1,7 @@
 import Driver.C06
 import Driver.C07
 import Driver.PumpDrv
+import Driver.E2E
 /-!
 `modeldrv`: one request per line on stdin (`<area> <op> <args…>`), one answer per line on stdout.
 -/
@@ -11,6 +12,7 @@ def dispatch (line : String) : String :=
   | "c06" :: rest => C06.handle rest
   | "c07" :: rest => C07.handle rest
   | "pump" :: rest => PumpDrv.handle rest
+  | "e2e" :: rest => E2E.handle rest
   | _ => "bad-op"
 
 partial def loop (h : IO.FS.Stream) (out : IO.FS.Stream) : IO Unit := do
